@@ -847,7 +847,7 @@ func idleCase(c *h.Case) {
 		off := 29400 - rng.Intn(300)
 		time.Sleep(time.Until(tReply.Add(time.Duration(off) * time.Millisecond)))
 		c.Data["offset_ms"] = off
-		if !idle.exchange(exSpec{L: 300, RepL: []int{300}, Delay: 1600 * time.Millisecond}, exWait, true) {
+		if !idle.exchange(exSpec{L: 300, RepL: []int{300}, Delay: 1600 * time.Millisecond, LossKey: "reply-lost-local-socket-expired-while-request-pending"}, exWait, true) {
 			return
 		}
 	case "return-after-expiry":
